@@ -63,7 +63,7 @@ fn main() {
         ctx.note("hooks: unavailable (library built without --cfg rpgp_verif)");
     }
 
-    if let Err(e) = rfc::selfcheck::run() {
+    if let Err(e) = rfc::selfcheck::run(prop == "SELFCHECK") {
         ctx.inconclusive(format!("reference self-check failed: {e}"));
     } else {
         let t0 = std::time::Instant::now();
@@ -88,6 +88,7 @@ fn main() {
             "C18" => props::c18::run(&mut ctx),
             "C19" => props::c19::run(&mut ctx),
             "ZOO" => zoo::warm(),
+            "SELFCHECK" => println!("MON-SELFCHECK-OK"),
             _ => {
                 eprintln!("unknown property {prop}");
                 std::process::exit(2);
